@@ -276,6 +276,12 @@ impl Monitor for Mon {
                     self.sticky = None;
                     stats.bump("probe.classA-downlink-with-commands");
                 }
+            } else if let (Verdict::Accept { .. }, Reaction::Unknown) = (&d.verdict, r) {
+                // the operation was cut short (an injected radio error after the frame had been handed over): whether
+                // the device had processed the frame by then is not observable here; start afresh
+                self.pending = None;
+                self.sticky = None;
+                stats.bump("probe.stood-down-after-cut-short-reception");
             } else if let Reaction::Accepted(_) = r {
                 // device accepted something the reference did not: C05's business; drop expectations
                 self.pending = None;
